@@ -157,8 +157,7 @@ class KernelSpace(Subspace):
                 for skind, sarg in splits:
                     if skind == "chunks" and isinstance(mask, np.ndarray) and mask.dtype.kind == "i":
                         pass  # positional masks + chunked values: library un-chunks; still legal
-                    if skind == "chunks" and isinstance(mask, slice):
-                        continue  # a chunked list cannot be sliced at kernel level
+                    # (a slice mask on chunked values cuts the chunked array as a whole, like array indexing)
                     for pol in policies:
                         if pol == -1 and not (skind == "chunks" or sarg > 1):
                             continue
@@ -258,6 +257,10 @@ def subspaces(tier, seed):
                  splits="T12" if q else "all", seed=seed))
     sp.append(K_("slices-f8-n0to3", AF2 if q else AF, 0, 3, "f8", "slice", splits="T12",
                  kernels=SEL if q else None, seed=seed))
+    # slice masks on chunked value lists (every composition): the slice cuts the chunked array as a whole
+    sp.append(K_(f"slices-chunked-values-f8-n{3 if q else 4}", AF2, 3 if q else 4, 3 if q else 4, "f8", "slice",
+                 splits="all", kernels=("sum", "first") if q else SEL, steps=(None, -1) if q else (None, -1, 2),
+                 seed=seed))
     sp.append(K_("stepped-slices-f8-n1to2", AF2, 1, 2 if q else 3, "f8", "slice", splits="T12",
                  kernels=SEL, steps=(2, -1, -2), seed=seed))
     sp.append(K_("positions-f8-n1to3", AF2 if q else AF, 1, 3, "f8", "pos", splits="T12",
